@@ -252,6 +252,12 @@ func (s *stopImpl) SetWindows(windows [][2]time.Time) error {
 				startTime.Format(time.RFC3339),
 			)
 		}
+		if endTime.After(s.model.MaxTime()) {
+			return fmt.Errorf("window %d is invalid, end time %s is after the latest time of the model %s", i,
+				endTime.Format(time.RFC3339),
+				s.model.MaxTime().Format(time.RFC3339),
+			)
+		}
 		if startTime.Second() != 0 || startTime.Nanosecond() != 0 {
 			return fmt.Errorf("window %d is invalid, start time %v is not on a minute boundary", i, startTime)
 		}
